@@ -6,6 +6,7 @@ import Driver.LogStream
 import Driver.DetStream
 import Driver.WinStream
 import Driver.FsStream
+import Driver.WriterStream
 open Driver
 
 def main (args : List String) : IO UInt32 := do
@@ -24,4 +25,6 @@ def main (args : List String) : IO UInt32 := do
   | ["mon", "window"] => runMon WinStream.init WinStream.monStep WinStream.monFinish; return 0
   | ["model", "fs"] => runModel FsStream.init FsStream.step; return 0
   | ["mon", "fs"] => runMon FsStream.monInit FsStream.monStep FsStream.monFinish; return 0
+  | ["model", "writer"] => runModel WriterStream.init WriterStream.step; return 0
+  | ["mon", "writer"] => runMon WriterStream.monInit WriterStream.monStep WriterStream.monFinish; return 0
   | _ => IO.eprintln "usage: driver model|mon <stream>"; return 2
